@@ -4,7 +4,8 @@ from .. import vlib
 
 TRUSTED = [
     "Lean 4.33 kernel; axioms per theorem under coverage.axioms (subset of propext, Classical.choice, Quot.sound)",
-    "translate/tab2d.py (appendSamplePoint guide rule + eval/findPoints expression shapes -> Gen/Tab2D.lean), translate/pvt.py (updateSaturationPressure_ sampling shape, Newton loop constants -> Gen/Pvt.lean); both cross-checked by the bit-exact correspondence of the dumped internal tables",
+    "translate/tab2d.py (appendSamplePoint guide rule + eval/findPoints/x-/ySegmentIndex expression shapes -> Gen/Tab2D.lean), translate/pvt.py (updateSaturationPressure_ sampling shape, Newton loop constants -> Gen/Pvt.lean); both cross-checked by the bit-exact correspondence of the dumped internal tables",
+    "translate/pvtregion.py (shape of PvtxTable::init / recordRanges / numTables, TableManager::initFullTables / initSimpleTableContainer; keyword routing -> Gen/PvtRegion.lean); cross-checked by the pvt.regions / pvt.simple correspondence on keywords with up to 6 regions and by property mode on whole decks",
     "harness/pvt.cpp + lib/vlib.py differ; model driver (compiled Lean, Float = IEEE double, operation order of the C++ mirrored)",
     "Float ~ R: theorems are over a linearly ordered field; the IEEE execution of the same definitions is compared bit for bit with the C++",
     "modelled, not verified: Parser/unit conversion (decided by property mode against independently written conversion factors), thermal/CO2/H2/brine PVT, VAPPARS modifiers, setSaturated* convenience initialisers, isfinite test (applied in the front end)",
@@ -15,8 +16,9 @@ def run(ctx):
     ctx.assumptions += [
         "tables are physically ordered: pressures / Rs / pg strictly increasing, saturated Rs(p), Rv(p) strictly increasing, B and mu positive",
         "PVTO/PVTG: the last record carries undersaturated rows (otherwise initFromState throws)",
+        "region 1's tables are given explicitly (a defaulted region 1 is refused by the code: theorem region_first_must_be_given, correspondence err:first)",
     ]
-    ctx.stage_translate(["tab2d", "pvt"])
+    ctx.stage_translate(["tab2d", "pvt", "pvtregion"])
     if not ctx.stage_build_opm():
         return ctx.finish(trusted_base=TRUSTED)
     ok, exe, out = vlib.build_harness("pvt")
